@@ -1,7 +1,7 @@
 (* C16 — theorems (statements only; proofs are in Proofs*.v) *)
 From Coq Require Import List NArith Bool Arith.
 From GixV.Base Require Import Bytes Outcome.
-From GixV.C16 Require Import Model Spec ProofsMerge ProofsBasic ProofsSingle ProofsPacked ProofsMulti ProofsWitness.
+From GixV.C16 Require Import Model Spec ProofsMerge ProofsBasic ProofsSingle ProofsPacked ProofsMulti ProofsHist ProofsWitness.
 Import ListNotations.
 
 (* ---- packed-refs: the merge of the sorted buffer with the sorted edits ----------------------------- *)
@@ -93,6 +93,27 @@ Theorem multi_edit_txn_refines_map_partial :
     end.
 Proof. exact multi_edit_refines. Qed.
 
+(* The refinement over HISTORIES for that class: any sequence of transactions (mode DeletionsOnly, committed or
+   rolled back, any number of non-dereferencing edits each) over names without directory/file relation,
+   started on a store without packed-refs, leaves a store that reads, name by name, like the specification map
+   folded over the history.  This is txn_refines_map_full_statement restricted to `simple_op` histories. *)
+Theorem history_refines_map_partial :
+  forall names, nodf names ->
+  forall ops lo (v : view),
+    Forall (simple_op names) ops -> incl (keys lo) names -> veq (observe (mkStore lo None)) v ->
+    veq (observe (final_store (mkStore lo None) ops)) (spec_hist v ops).
+Proof. exact history_refines. Qed.
+
+(* the specification only depends on the values of a view *)
+Theorem spec_txn_extensional :
+  forall v w edits, veq v w ->
+    match spec_txn v edits, spec_txn w edits with
+    | Some a, Some b => veq a b
+    | None, None => True
+    | _, _ => False
+    end.
+Proof. exact spec_txn_ext. Qed.
+
 (* The same with a packed-refs file present (sorted), for a name under refs/heads/ and an edit that changes the
    reference (RefLog::AndReference): the current value is the loose one, else the packed one; an update is
    written as loose reference over the packed entry, a deletion removes the loose file and rewrites
@@ -174,3 +195,10 @@ Example multi_edit_one_failing_expectation_refuses_all :
        (Txn DeletionsOnly true (mu_edits ++ [mkRefEdit (bs "refs/heads/s") (Update AndRef PMustExist (Obj x31)) false]))
   = (RPrepareErr EMustExist, mkStore mu_lo None).
 Proof. exact mu_refused. Qed.
+Example history_hypotheses_satisfiable :
+  nodf hist_names /\ Forall (simple_op hist_names) hist_ops /\ incl (keys hist_lo) hist_names.
+Proof. exact hist_hyps. Qed.
+Example history_example :
+  final_store (mkStore hist_lo None) hist_ops
+  = mkStore [(bs "HEAD", Obj x32); (bs "refs/tags/t", Obj x33); (bs "refs/heads/a", Obj x32)] None.
+Proof. exact hist_final. Qed.
